@@ -11,7 +11,10 @@ void oracle_misuse_op(const Op& op);      // misuse.cc (C17)
 void oracle_bad_request(const Op& op);    // badreq.cc (C06)
 void oracle_purge_check(const Op& op);    // purge.cc (C18)
 
+bool forced_abandon_possible_pub();
 static bool forced_abandon_possible() { return H.forced_abandon_possible || mi_option_get(mi_option_target_segments_per_thread) > 0; }
+
+bool forced_abandon_possible_pub() { return forced_abandon_possible(); }
 
 // ---------------------------------------------------------------------------------
 // heap walking (C12) and derived oracles
